@@ -3,7 +3,9 @@ import Driver.Ops.Core
 import Driver.Ops.ConstraintGen
 import Driver.Ops.Fs
 import Driver.Ops.Compile
+import Driver.Ops.Fix
 import Driver.Ops.Denote
+import Driver.Ops.Des
 import Driver.Ops.Finish
 import Driver.Ops.Ssm
 import Driver.Ops.Subst
@@ -16,7 +18,9 @@ def handlers : List (String → Json → Option Json) := [
   ConstraintGen.handle?,
   Fs.handle?,
   Compile.handle?,
+  FixOps.handle?,
   DenoteOps.handle?,
+  DesOps.handle?,
   FinishOps.handle?,
   Ssm.handle?,
   Subst.handle?
